@@ -221,3 +221,108 @@ func c04InputsKept(c *core.Ctx) {
 		c.Ob("C04-R9", "UNRESOLVED:derived-amounts", token.NoPos, false, "no amount derived from a percentage found in bill, pay, tax")
 	}
 }
+
+// c04InputsRoundedInPlace — C04-R10: an amount that can be an input of the
+// calculation (no unconditional assignment from a computed value anywhere in
+// its package) is not lowered in precision in place (`x.F = x.F.RescaleDown(e)`,
+// `x.F = x.F.Rescale(e)`) when the same pass has summed it at full precision:
+// the first calculation uses the amount as given and stores it rounded, the
+// second starts from the rounded amount, so for an input with more decimals
+// than the presentation the two results differ by up to a unit.
+func c04InputsRoundedInPlace(c *core.Ctx) {
+	p := c.P
+	c.Rule("C04-R10", "input amounts are not rounded in place after having been summed at full precision", 4)
+	type site struct {
+		fd  *core.FuncDecl
+		as  *ast.AssignStmt
+		f   *types.Var
+		own *types.Named
+	}
+	var sites []site
+	pkgs := []string{"bill", "pay"}
+	var fds []*core.FuncDecl
+	for _, rel := range pkgs {
+		fds = append(fds, p.Funcs(p.Pkg(rel))...)
+	}
+	for _, fd := range fds {
+		info := fd.Pkg.TypesInfo
+		ast.Inspect(fd.Decl.Body, func(m ast.Node) bool {
+			as, ok := m.(*ast.AssignStmt)
+			if !ok || len(as.Lhs) != 1 || len(as.Rhs) != 1 {
+				return true
+			}
+			f := core.FieldOf(info, as.Lhs[0])
+			call, isCall := ast.Unparen(as.Rhs[0]).(*ast.CallExpr)
+			if f == nil || !isCall || !isAmountMethod(core.Callee(info, call), "RescaleDown", "Rescale") {
+				return true
+			}
+			if !sameLoc(info, as.Lhs[0], core.RecvExpr(call)) {
+				return true
+			}
+			se, _ := ast.Unparen(as.Lhs[0]).(*ast.SelectorExpr)
+			if se == nil {
+				return true
+			}
+			sites = append(sites, site{fd, as, f, fieldOwner(info, se)})
+			return true
+		})
+	}
+	seen := map[*types.Var]bool{}
+	n := 0
+	for _, s := range sites {
+		if seen[s.f] || s.own == nil {
+			continue
+		}
+		seen[s.f] = true
+		// input-capable: every other assignment to the field in these packages is conditional
+		computed := false
+		summed := ""
+		for _, fd := range fds {
+			info := fd.Pkg.TypesInfo
+			ast.Inspect(fd.Decl.Body, func(m ast.Node) bool {
+				switch x := m.(type) {
+				case *ast.AssignStmt:
+					for i, l := range x.Lhs {
+						if core.FieldOf(info, l) != s.f || i >= len(x.Rhs) || len(x.Lhs) != len(x.Rhs) {
+							continue
+						}
+						self := false
+						ast.Inspect(x.Rhs[i], func(k ast.Node) bool {
+							if e, ok := k.(ast.Expr); ok && sameLoc(info, e, l) {
+								self = true
+							}
+							return true
+						})
+						if self {
+							continue
+						}
+						if len(enclosingConds(fd.Decl.Body, x)) == 0 {
+							computed = true
+						}
+					}
+				case *ast.CallExpr:
+					// x.Add(<…F…>) / x.Subtract / x.MatchPrecision(<…F…>): the field feeds a sum
+					if isAmountMethod(core.Callee(info, x), "Add", "Subtract") && len(x.Args) == 1 {
+						ast.Inspect(x.Args[0], func(k ast.Node) bool {
+							if se, ok := k.(*ast.SelectorExpr); ok && core.FieldOf(info, se) == s.f && summed == "" {
+								summed = p.Rel(x.Pos())
+							}
+							return true
+						})
+					}
+				}
+				return true
+			})
+		}
+		if computed {
+			continue // always produced by the calculation itself: rounding the result is presentation
+		}
+		n++
+		key := core.TypeName(s.own) + "." + s.f.Name()
+		c.Ob("C04-R10", key+"#rounded-in-place", s.as.Pos(), summed == "",
+			fmt.Sprintf("%s can be given by the input (it is only assigned under a condition), is summed at full precision at %s and then lowered in precision in place by %s: with more decimals than the currency in the input, the first calculation stores the rounded amount and a second one starts from it, so the totals can differ by a unit between the two", key, summed, s.fd.Name()))
+	}
+	if n == 0 {
+		c.Note("C04-R10: no input-capable amount is rounded in place")
+	}
+}
